@@ -210,10 +210,7 @@ func (storeH) Generate(property string, seed uint64, tier string) *Case {
 			}
 		}
 		if property == "C24" {
-			// no in-progress markers: deploy counts are then exactly the recorded workloads
 			switch op.Kind {
-			case "create_processing", "delete_processing":
-				op.Kind = "deploy_status"
 			case "add_workload":
 				op.Flag = false
 			case "add_pod", "remove_pod", "update_node", "set_node_status", "nodes_by_pod", "get_workloads":
@@ -249,6 +246,7 @@ type stModel struct {
 	NodeSt    map[string]*stStatus
 	WlSt      map[string]*stStatus
 	Proc      map[string]bool // in-progress markers: "app/entry/node"
+	ProcNames map[string][3]string // the same markers by their exact names
 	Count     map[string]int  // reach probes
 }
 
@@ -264,7 +262,7 @@ func remaining(s *stStatus) time.Duration {
 }
 
 func newStModel() *stModel {
-	return &stModel{Pods: map[string]bool{}, Nodes: map[string]string{}, Workloads: map[string]*stWorkload{}, NodeSt: map[string]*stStatus{}, WlSt: map[string]*stStatus{}, Proc: map[string]bool{}, Count: map[string]int{}}
+	return &stModel{Pods: map[string]bool{}, Nodes: map[string]string{}, Workloads: map[string]*stWorkload{}, NodeSt: map[string]*stStatus{}, WlSt: map[string]*stStatus{}, Proc: map[string]bool{}, ProcNames: map[string][3]string{}, Count: map[string]int{}}
 }
 
 // stWatch is one open status stream and what it has delivered.
@@ -674,11 +672,13 @@ func applyStoreOp(ctx context.Context, b *stBackend, op storeOp, viol func(p, ru
 		err = st.CreateProcessing(ctx, &coretypes.Processing{Appname: op.App, Entryname: op.Entry, Nodename: op.Node, Ident: "pid"}, op.Count)
 		if err == nil {
 			m.Proc[op.App+"/"+op.Entry+"/"+op.Node] = true
+			m.ProcNames[op.App+"\x00"+op.Entry+"\x00"+op.Node] = [3]string{op.App, op.Entry, op.Node}
 		}
 	case "delete_processing":
 		err = st.DeleteProcessing(ctx, &coretypes.Processing{Appname: op.App, Entryname: op.Entry, Nodename: op.Node, Ident: "pid"})
 		if err == nil {
 			delete(m.Proc, op.App+"/"+op.Entry+"/"+op.Node)
+			delete(m.ProcNames, op.App+"\x00"+op.Entry+"\x00"+op.Node)
 		}
 	case "list_workloads":
 		var wls []*coretypes.Workload
@@ -802,6 +802,10 @@ func (m *stModel) kindOfNames(query ...string) string {
 		w := m.Workloads[id]
 		names = append(names, w.App, w.Entry, w.Node)
 	}
+	for _, k := range sortedKeys(m.ProcNames) {
+		p := m.ProcNames[k]
+		names = append(names, p[0], p[1], p[2])
+	}
 	return nameKind(names...)
 }
 
@@ -911,8 +915,21 @@ func readBack(ctx context.Context, b *stBackend, prop string, viol func(p, rule,
 		ds, err := st.GetDeployStatus(ctx, p[0], p[1])
 		fmt.Fprintf(&sb, "deploy(%s,%s)[%s]%s ", p[0], p[1], fmtCounts(ds), errClass(err))
 		if prop == "C24" && err == nil {
-			// no in-progress markers in C24 histories: the count is exactly the workloads
-			// created under this application and entrypoint, per node
+			// the count is exactly the workloads created under this application and entrypoint,
+			// per node; while a marker under exactly these names is present the count includes
+			// what is in progress and is not compared, markers under other names change nothing
+			own := false
+			for _, pn := range m.ProcNames {
+				if pn[0] == p[0] && pn[1] == p[1] {
+					own = true
+				}
+			}
+			if own {
+				continue
+			}
+			if len(m.ProcNames) > 0 {
+				res.Probes["deploy_count_checked_with_markers_under_other_names"]++
+			}
 			want := map[string]int{}
 			for _, w := range m.Workloads {
 				if w.App == p[0] && w.Entry == p[1] {
